@@ -283,7 +283,7 @@ fn quat(axis: [f64; 3], deg: f64) -> [f64; 4] {
 pub fn scenarios(tier: &str) -> Vec<PyScenario> {
     let thorough = tier != "quick";
     let mut out = Vec::new();
-    let seeds: Vec<u64> = if thorough { vec![0, 1, 7, 12345] } else { vec![1, 7] };
+    let seeds: Vec<u64> = if thorough { vec![0, 1, 7, 12345, u64::MAX] } else { vec![0, 7] };
     let nworlds = if thorough { 4 } else { 2 };
     struct Variant {
         kit: &'static str,
